@@ -156,6 +156,26 @@ def body_inverse(case):
     require(bool(np.all(E_tau <= E_nu * (1 + 1e-12))), "tau energy exceeds the neutrino energy")
     if high.any():
         require(bool(np.all(z[high] <= 2e-7)), f"angle above the tabulated maximum gives a non-negligible energy fraction {z[high].max()!r}")
+    # the caller re-uses its arrays: the SAME ndarray objects refilled in place with the events in another order, on
+    # the same module object (a mask memoised on array identity would be stale)
+    if n >= 2:
+        roll = 1 + (len(case["events"]) % (n - 1))
+        expect = np.roll(E_tau, roll)
+        beta[...] = np.roll(beta, roll)
+        log_e[...] = np.roll(log_e, roll)
+        u[...] = np.roll(u, roll)
+        with cut("Taus.tau_energy(same arrays refilled in place)"):
+            E_again = np.asarray(taus.tau_energy(beta, log_e, u), dtype=np.float64)
+        require(E_again.tobytes() == expect.tobytes(), f"after the caller refilled its input arrays in place (events rotated by {roll}) a second call on the same object does not return the rotated results ({int(np.sum(E_again != expect))} of {n} events differ)")
+        with cut("Taus.tau_exit_prob(same arrays)"):
+            p1 = np.asarray(taus.tau_exit_prob(beta, log_e))
+        beta[...] = np.roll(beta, -roll)
+        log_e[...] = np.roll(log_e, -roll)
+        u[...] = np.roll(u, -roll)
+        in_e = (log_e >= 6.0) & (log_e <= 12.0)
+        with cut("Taus.tau_exit_prob(same arrays refilled)"):
+            p2 = np.asarray(taus.tau_exit_prob(beta, log_e))
+        require(np.roll(p2, roll).tobytes() == p1.tobytes(), "exit probabilities do not follow the events after the caller refilled its arrays in place")
     labels = set()
     if valid.any() and low.any() and high.any():
         labels.add("mixed_angles")
